@@ -50,6 +50,8 @@ func main() {
 		runMain("stage")
 	case "schemas":
 		schemasMain()
+	case "impl-layouts":
+		implLayoutsMain()
 	default:
 		os.Exit(2)
 	}
@@ -512,6 +514,26 @@ func schemasMain() {
 				fmt.Fprintf(w, `{"api":%d,"name":%q,"ver":%d,"dir":%q,"flexible":%v,"implT":%q,"impl":%s,"spec":%s}`+"\n",
 					a.Key, a.Name, v, dir, flexible, tn, impl.JSON(), spec.JSON())
 			}
+		}
+	}
+}
+
+// implLayoutsMain prints, for every api key the dissector knows and every version 0..15, the
+// layouts its own Dissect selects (observed through a header-only exchange): the input of the
+// layout-directed witness generator in tools/fam/kafka.py.
+func implLayoutsMain() {
+	w := bufio.NewWriter(os.Stdout)
+	defer w.Flush()
+	for _, a := range kobs.Supported {
+		for v := int16(0); v <= 15; v++ {
+			o := kobs.Observe(a.Key, v)
+			one := func(t reflect.Type) string {
+				if t == nil {
+					return "null"
+				}
+				return kty.ImplTy(t).JSON()
+			}
+			fmt.Fprintf(w, `{"api":%d,"name":%q,"ver":%d,"req":%s,"resp":%s}`+"\n", a.Key, a.Name, v, one(o.ReqType), one(o.RespType))
 		}
 	}
 }
